@@ -183,6 +183,7 @@ def draw_case(seed):
                        "queries": [qr.choice(["classes", "methods", "find", "present", "strings", "none", "none"]) for _ in p],
                        "empty_at": qr.randrange(len(p) + 1) if qr.random() < 0.15 else None})
     return {"seed": seed, "model": model, "assignment": assignment, "orders": orders,
+            "zero_signature": core.rng(seed, "sig").random() < 0.15,
             "sched_seed": core.rng(seed, "sched").getrandbits(40), "preempt": core.rng(seed, "sched-rate").choice([0.005, 0.03, 0.1])}
 
 
@@ -263,6 +264,17 @@ def execute(case):
         dexasm.selfcheck(model, raw0, lay0)
     except dexasm.AsmError as e:
         raise HarnessError(f"generator self-check failed (seed {case['seed']}): {e}")
+
+    def unsigned(raw):
+        """the SHA-1 signature field left zero, as some tools write it (only the Adler-32 is verified by androguard)"""
+        if not case.get("zero_signature"):
+            return raw
+        b = bytearray(raw)
+        b[12:32] = bytes(20)
+        return dexasm.fix_adler(b)
+    raw0 = unsigned(raw0)
+    if case.get("zero_signature"):
+        probe("dex-files-with-zero-signature-field")
     dx0 = Analysis()
     dx0.add(dex.DEX(raw0))
     dx0.create_xref()
@@ -276,7 +288,7 @@ def execute(case):
         for key, m in lay["methods"].items():
             if lay0["methods"][key]["offsets"] != m["offsets"] or lay0["methods"][key]["units"] != m["units"]:
                 raise HarnessError("generator: code layout differs between single and split build")
-        raws.append(raw)
+        raws.append(unsigned(raw))
     part_of = {c["desc"]: a for c, a in zip(model["classes"], case["assignment"])}
     empty_raw = None
     problems = {}
@@ -469,7 +481,7 @@ def write_replay(case, sig, msg, info):
         return None
     payload = {"property": PROP, "engine": "histsim", "seed": case["seed"], "config": {},
                "model": case.get("model"), "assignment": case.get("assignment"), "orders": case.get("orders"),
-               "sched_seed": case.get("sched_seed"), "preempt": case.get("preempt"),
+               "sched_seed": case.get("sched_seed"), "preempt": case.get("preempt"), "zero_signature": case.get("zero_signature"),
                "apk": case.get("apk"),
                "ops": [["add"] + o["order"] for o in case.get("orders", [])], "decisions": [], "faults": [],
                "violation": {"class": sig.split(":")[1], "signature": sig, "message": sigs[sig]},
@@ -491,7 +503,8 @@ def replay(path):
     def rerun(rp):
         case = {"seed": rp["seed"], "apk": rp["apk"]} if rp.get("apk") else \
             {"seed": rp["seed"], "model": rp["model"], "assignment": rp["assignment"], "orders": rp["orders"],
-             "sched_seed": rp.get("sched_seed") or rp["seed"], "preempt": rp.get("preempt") or 0.03}
+             "sched_seed": rp.get("sched_seed") or rp["seed"], "preempt": rp.get("preempt") or 0.03,
+             "zero_signature": rp.get("zero_signature")}
         out = execute(case)
         return {s for s, _ in out["problems"]}, out["digest"], [f"{s}: {m}" for s, m in out["problems"]]
     return driver.replay_common(__import__("checks.c16", fromlist=["x"]), path, rerun)
